@@ -131,6 +131,49 @@ def run(W, chk):
     B = W.run(PM, "execute", ("WithdrawLiquidity",), pol)
     chk.expect(bool(pol.hits) and not B.effects(), "CUT-share-ratio", "withdraw", "no effect unless amount/supply <= 1",
                "withdrawal proceeds without the share-ratio sanity check (found %s)" % bool(pol.hits), B.entry)
+    zero_refunds_dropped(chk, A)
     mp = [e for e in A.calls(r"cw_utils::must_pay$")]
     chk.expect(len(mp) == 1 and exact_origins(mp[0].extra["dargs"][1]) == {"Store(POOLS).lp_denom"}, "PROV-burn", "must_pay", "LP paid in must be the pool's LP denom",
                "must_pay denom %s" % [sorted(all_origins(e.extra["dargs"][1])) for e in mp], A.entry)
+
+
+def zero_refunds_dropped(chk, A):
+    """a refund of zero units is left out of the bank message (a Send carrying a zero coin is rejected by the bank module, which would
+    block the redemption of any LP amount whose share of one asset rounds to zero): the decision over a refund amount is strict"""
+    from rules.common import pred_tree_has
+    strict, loose = [], []
+
+    def is_refund(v):
+        m = opmap(v)
+        return "Store(POOLS).assets[*].amount" in m and "div_floor" in set().union(*m.values())
+
+    def zero(v):
+        o = all_origins(v)
+        return bool(o) and all(x.startswith("Const(") for x in o)
+
+    def t_strict(pn, pa):
+        if pn in ("is_zero",) and pa and is_refund(pa[0]):
+            return True
+        return pn in ("gt", "lt", "eq", "ne") and len(pa) > 1 and ((is_refund(pa[0]) and zero(pa[1])) or (is_refund(pa[1]) and zero(pa[0])))
+
+    def t_loose(pn, pa):
+        return pn in ("ge", "le") and len(pa) > 1 and ((is_refund(pa[0]) and zero(pa[1])) or (is_refund(pa[1]) and zero(pa[0])))
+    for e in A.events:
+        if e.kind in ("switch", "invoke") and e.vals:
+            for v in e.vals:
+                if pred_tree_has(v, t_strict):
+                    strict.append(e)
+                if pred_tree_has(v, t_loose):
+                    loose.append(e)
+        r = e.extra.get("ret") if e.kind in ("invoke", "call") else None
+        if r is not None and hasattr(r, "atoms"):
+            if pred_tree_has(r, t_strict):
+                strict.append(e)
+            if pred_tree_has(r, t_loose):
+                loose.append(e)
+    if not strict and not loose:
+        chk.skip("LIVE-zero-refund", "WithdrawLiquidity", "no decision on a refund amount against zero found")
+        return
+    chk.expect(bool(strict) and not loose, "LIVE-zero-refund", "WithdrawLiquidity", "zero refunds are filtered out by a strict comparison",
+               "refund amounts are compared with zero non-strictly (%d site(s)): a zero coin stays in the bank message" % len(loose),
+               where((loose or strict)[0]))
